@@ -859,7 +859,8 @@ Definition content_of (S : sch) (rho : ctx) (b : hbody) : otree :=
 Section Decode.
   Variable spec : Type.
   Variable schema_of : spec -> sch.                           (* ImpliedSchema, ChildBlockTypes *)
-  Variable decode : spec -> hbody -> ctx -> val * list diag.  (* hcldec.Decode *)
+  Variable result : Type.                                     (* value and diagnostics *)
+  Variable decode : spec -> hbody -> ctx -> result.           (* hcldec.Decode *)
   Hypothesis decode_respects_content : forall s b1 b2 rho,
     content_of (schema_of s) rho b1 = content_of (schema_of s) rho b2 ->
     decode s b1 rho = decode s b2 rho.
